@@ -651,7 +651,9 @@ ovni_thread_free(void)
 	free(rthread.evbuf);
 	rthread.evbuf = NULL;
 
-	close(rthread.streamfd);
+	if (close(rthread.streamfd) != 0)
+		die("close stream failed:");
+
 	rthread.streamfd = -1;
 
 	if (rproc.move_to_final) {
